@@ -1,6 +1,7 @@
 package dbreplay
 
 import (
+	"bytes"
 	"encoding/json"
 	"fmt"
 	"math/rand"
@@ -23,6 +24,7 @@ type Stage struct {
 	Depth    int
 	Timeout  time.Duration
 	MaxKeep  int // keep at most this many traces (reservoir-sampled with the seed); 0 = all
+	LastIs   string // if set, keep only behaviours whose last action has this name
 }
 
 // Collect runs the stage; a model-level violation is an infrastructure failure (R2: the model is
@@ -40,6 +42,12 @@ func Collect(rep *core.Report, st Stage, seed int64) []Trace {
 		OnLine: func(tag string, payload json.RawMessage) {
 			if tag != "TRACE" {
 				return
+			}
+			if st.LastIs != "" {
+				k := bytes.LastIndex(payload, []byte(`"a":"`))
+				if k < 0 || !bytes.HasPrefix(payload[k+5:], []byte(st.LastIs+`"`)) {
+					return
+				}
 			}
 			mu.Lock()
 			seen++
@@ -210,4 +218,62 @@ func ReplayFile(rep *core.Report, prop, path string) {
 		core.Infra("parse replay: %v", err)
 	}
 	ReplayAll(rep, prop, []Trace{f.Replay.Trace}, []Config{f.Replay.Config}, 0)
+}
+
+// Record adds the outcome of one replay to the report (failures of other properties are only counted).
+func Record(rep *core.Report, prop string, tr Trace, cfg Config, r Result) {
+	rep.Eval(r.Evals)
+	rep.TracesValidated++
+	rep.Case(traceKey(tr)+crashKey(tr)+"|"+cfg.String(), r.Nontrivial)
+	for _, nc := range r.Nonconf {
+		rep.Nonconf("%s [%s] %s", traceKey(tr), cfg, nc)
+	}
+	other, _ := rep.Extra["monitor_failures_of_other_properties"].(map[string]int)
+	if other == nil {
+		other = map[string]int{}
+	}
+	for _, f := range r.Fails {
+		if f.Prop == prop {
+			rep.Violate(f.Monitor, f.Sig, map[string]any{"step": f.Step, "detail": f.Detail, "config": cfg.String()}, map[string]any{"trace": tr, "config": cfg})
+		} else {
+			other[f.Prop+":"+f.Monitor]++
+			if os.Getenv("VERIF_DEBUG_OTHER") != "" {
+				b, _ := json.Marshal(f)
+				fmt.Fprintf(os.Stderr, "other-property failure: %s\n  trace: %v\n", b, compactTrace(tr))
+			}
+		}
+	}
+	if len(other) > 0 {
+		rep.Extra["monitor_failures_of_other_properties"] = other
+	}
+}
+
+func crashKey(t Trace) string {
+	if n := len(t.H); n > 0 && t.H[n-1].A == "Crash" {
+		return "crash" + string(t.H[n-1].G)
+	}
+	return ""
+}
+
+// Compact renders a behaviour for the evidence file.
+func Compact(t Trace) []string { return compactTrace(t) }
+
+// ReplayCrashFile re-executes a crash behaviour stored in a replay file.
+func ReplayCrashFile(rep *core.Report, prop, path string) {
+	b, err := os.ReadFile(path)
+	if err != nil {
+		core.Infra("read replay: %v", err)
+	}
+	var f struct {
+		Replay struct {
+			Trace  Trace  `json:"trace"`
+			Config Config `json:"config"`
+		} `json:"replay"`
+	}
+	if err := json.Unmarshal(b, &f); err != nil {
+		core.Infra("parse replay: %v", err)
+	}
+	dir := core.Scratch("crash")
+	r := RunCrash(f.Replay.Trace, f.Replay.Config, dir, true)
+	Record(rep, prop, f.Replay.Trace, f.Replay.Config, r)
 }
